@@ -6,7 +6,9 @@ cd /repo || exit 2
 if [ -n "$(git status --porcelain)" ]; then echo "/repo not clean"; exit 2; fi
 git apply "$d/patch.diff" || { echo "patch does not apply"; exit 2; }
 cd /verif
+cp evidence/$prop.json /tmp/.seedrun-evidence-$prop.json 2>/dev/null   # evidence must describe the unchanged tree
 python3-vt -m fsv.check "$prop" --tier "$tier" 2>&1 | cut -c1-420 | tail -${4:-4}
 rc=${PIPESTATUS[0]}
 git -C /repo checkout -- .
+[ -f /tmp/.seedrun-evidence-$prop.json ] && mv /tmp/.seedrun-evidence-$prop.json evidence/$prop.json
 echo "check rc=$rc; /repo restored: $(git -C /repo status --porcelain | wc -l) dirty files"
